@@ -11,7 +11,8 @@ from concurrent.futures import ThreadPoolExecutor
 from lib import gN, gbool, gnat, glist, gopt, hexs
 
 HEADER = "From CJ Require Import Common.Base C09.Model C09.Run.\n"
-DRIVER = {"zz_verif_driver_test.go": "c09/sched_driver_test.go"}
+DRIVER = {"zz_verif_driver_test.go": "c09/sched_driver_test.go", "zz_verif_reload_test.go": "c09/reload_driver_test.go"}
+HEADER_R = "From CJ Require Import Common.Base C09.Model C09.ModelR C09.RunR.\n"
 PKG = "pkg/station/lib"
 
 # ---------------------------------------------------------------- menus
@@ -682,6 +683,204 @@ def run_stress(ctx, race):
         ctx.cov["race_detector"] = {"ran": True, "reports": sorted(seen)}
 
 
+# ---------------------------------------------------------------- reload as an operation of the history
+V4_POOL = ["10.0.0.0/8", "10.1.0.0/16", "10.2.0.0/16", "127.0.0.0/8", "192.0.2.0/24", "192.0.2.64/26", "198.51.100.0/24",
+           "203.0.113.0/25", "8.8.8.0/24", "172.16.0.0/12", "100.64.0.0/10", "0.0.0.0/1", "169.254.0.0/16"]
+V4_HOSTS = ["10.1.2.3", "10.2.3.4", "10.200.0.9", "192.0.2.77", "192.0.2.5", "198.51.100.9", "203.0.113.200", "8.8.8.8",
+            "172.20.1.1", "100.70.0.1", "127.0.0.1", "169.254.1.1", "1.1.1.1", "224.0.0.5"]
+PH_POOL = ["2001:db8:bad::/48", "2001:db8::/64", "2001:db8:5::/64", "2001:db8:5:6::/64"]
+PH_BASES = ["2001:db8::", "2001:db8:1::", "2001:db8:bad:7::", "2001:db8:5:6::", "2001:db8:5:7::"]
+DOM_POOL = [r"^10\.", r"\.77$", r"^192\.0\.2\.", r"8\.8", r"^172\.2"]
+
+
+def r_sections(conf, probe):
+    """the decision of every policy section for one probe under one configuration (True = refused there)"""
+    host = probe["covert"].rsplit(":", 1)[0]
+    ip = ipaddress.ip_address(host)
+    ph = ipaddress.ip_address(probe["phantom"])
+    phb = any(ph.version == ipaddress.ip_network(n).version and ph in ipaddress.ip_network(n) for n in conf.get("phantom_block", []))
+    dom = any(re.search(pat, host) for pat in conf.get("covert_domains", []))
+    if conf.get("covert_allow"):
+        ad = not any(ip in ipaddress.ip_network(n) for n in conf["covert_allow"])
+    else:
+        ad = any(ip in ipaddress.ip_network(n) for n in conf.get("covert_block", []))
+    return [phb, dom, ad]
+
+
+def r_probe(host, phantom, source):
+    return {"covert": host + ":443", "phantom": phantom, "source": source}
+
+
+def rser_case(tag, confs, probes, workers, reloads, lineup):
+    confs = [dict({"covert_block": [], "covert_allow": [], "phantom_block": [], "covert_domains": []}, **c) for c in confs]
+    return {"mode": "rser", "tag": tag, "confs": confs, "probes": probes, "workers": workers, "reloads": reloads, "lineup": lineup}
+
+
+def gen_rser_cases(ctx):
+    rng = ctx.rng
+    quick = ctx.tier == "quick"
+    n = 1200 if quick else 8000
+    cases = []
+    for c in (ctx.replay or {}).get("rser_cases", []):
+        cases.append(c)
+    # (1) blocklist-only <-> allowlist: the allowlist switch toggles with every reload; one probe both
+    #     configurations refuse, one both accept (each in every section), one they judge differently
+    cases.append(rser_case("block<->allow", [{"covert_block": ["10.0.0.0/8", "127.0.0.0/8"]}, {"covert_allow": ["192.0.2.0/24"]}],
+                           [r_probe("10.1.2.3", "2001:db8::", "api"), r_probe("192.0.2.77", "2001:db8::", "detector"),
+                            r_probe("8.8.8.8", "2001:db8:1::", "api")], 4, n, 5))
+    # (2) the same toggle with phantom blocklist and domain patterns that stay the same across the reload
+    same = {"phantom_block": ["2001:db8:bad::/48"], "covert_domains": [r"^203\."]}
+    cases.append(rser_case("allow<->block+same", [dict(same, covert_allow=["192.0.2.0/24", "10.1.0.0/16"]), dict(same, covert_block=["10.2.0.0/16"])],
+                           [r_probe("10.2.3.4", "2001:db8::", "detector"), r_probe("10.1.2.3", "2001:db8:1::", "api"),
+                            r_probe("192.0.2.5", "2001:db8:bad:7::", "detector"), r_probe("203.0.113.200", "2001:db8::", "api"),
+                            r_probe("8.8.8.8", "2001:db8::", "prescan")], 6, n, 4))
+    # (3) three configurations in a cycle: allowlist, blocklist, allowlist + blocklist (the allowlist takes precedence)
+    cases.append(rser_case("cycle3", [{"covert_allow": ["8.8.8.0/24", "198.51.100.0/24"]}, {"covert_block": ["10.0.0.0/8", "192.0.2.0/24"]},
+                                      {"covert_allow": ["8.8.8.0/24", "172.16.0.0/12"], "covert_block": ["8.8.8.0/24"]}],
+                           [r_probe("8.8.8.8", "2001:db8::", "api"), r_probe("10.1.2.3", "2001:db8::", "api"),
+                            r_probe("192.0.2.77", "2001:db8::", "detector"), r_probe("198.51.100.9", "2001:db8::", "api")], 4, n, 3))
+    # (4) random pairs: lists drawn from the pools; probes sorted into "same in every section" / "judged differently"
+    for k in range(2 if quick else 8):
+        for _ in range(50):
+            kinds = rng.choice([("block", "allow"), ("allow", "block"), ("allow", "allow"), ("block", "block"), ("block", "both")])
+            confs = []
+            keep_ph = rng.sample(PH_POOL, rng.choice([0, 1, 2]))
+            keep_dom = rng.sample(DOM_POOL, rng.choice([0, 0, 1]))
+            for kd in kinds:
+                c = {"phantom_block": list(keep_ph), "covert_domains": list(keep_dom)}
+                if kd in ("block", "both"):
+                    c["covert_block"] = rng.sample(V4_POOL, rng.choice([1, 2, 3]))
+                if kd in ("allow", "both"):
+                    c["covert_allow"] = rng.sample(V4_POOL, rng.choice([1, 2, 3]))
+                confs.append(c)
+            probes, classes = [], set()
+            hosts = list(V4_HOSTS)
+            rng.shuffle(hosts)
+            for h in hosts:
+                pr = r_probe(h, rng.choice(PH_BASES), rng.choice(["api", "detector", "prescan"]))
+                secs = [r_sections(c, pr) for c in confs]
+                cl = ("same-refused" if any(secs[0]) else "same-accepted") if all(x == secs[0] for x in secs) else "differs"
+                if cl not in classes or (len(probes) < 5 and cl != "differs"):
+                    classes.add(cl)
+                    probes.append(pr)
+            if {"same-refused", "same-accepted"} <= classes and kinds[0] != kinds[1] or len(classes) == 3:
+                cases.append(rser_case("random/%s<->%s" % kinds, confs, probes[:6], rng.choice([3, 4, 8]), n, rng.choice([2, 4, 7])))
+                break
+    # (5) the open finding: configurations that refuse the same registration in DIFFERENT read sections of the ingest
+    cases.append(rser_case("cross-section/domain+address", [{"covert_block": ["10.0.0.0/8"]}, {"covert_domains": [r"^10\."]}],
+                           [r_probe("10.1.2.3", "2001:db8::", "api")], 4, n, 3))
+    cases.append(rser_case("cross-section/covert+phantom", [{"covert_block": ["10.0.0.0/8"]}, {"phantom_block": ["2001:db8::/64"]}],
+                           [r_probe("10.1.2.3", "2001:db8::", "detector"), r_probe("10.1.2.3", "2001:db8::", "api")], 4, n, 3))
+    return cases
+
+
+def g_ip(s):
+    ip = ipaddress.ip_address(s)
+    return "(mkIp %s %s)" % (gN(32 if ip.version == 4 else 128), gN(int(ip)))
+
+
+def g_cidr(s):
+    nw = ipaddress.ip_network(s)
+    return "(mkCidr %s %s %s)" % (gN(32 if nw.version == 4 else 128), gN(int(nw.network_address)), gN(nw.prefixlen))
+
+
+def g_pol(conf, hosts):
+    hit = [i for i, h in enumerate(hosts) if any(re.search(pat, h) for pat in conf["covert_domains"])]
+    return "(mkPol %s %s %s %s %s)" % (gbool(bool(conf["covert_allow"])), glist([g_cidr(x) for x in conf["covert_allow"]]),
+                                       glist([g_cidr(x) for x in conf["covert_block"]]), glist([gnat(i) for i in hit]),
+                                       glist([g_cidr(x) for x in conf["phantom_block"]]))
+
+
+def conf_kind(c):
+    return ("allowlist" if c["covert_allow"] else "blocklist" if c["covert_block"] else "open")
+
+
+def run_rser(ctx):
+    cases = gen_rser_cases(ctx)
+    rc, out, res = ctx.go_inpkg(".", PKG, DRIVER, "^TestVerifC09Reload$", cases, timeout=600)
+    if res is None or len(res) != len(cases):
+        ctx.broken("driver", "Go driver (reload lane) produced no results: %s" % out[-800:])
+        return
+    terms, term_case = [], []
+    hist = ctx.cov["histogram"]
+    for c, r in zip(cases, res):
+        replay = {"rser_cases": [c], "observed": r}
+        if r.get("error"):
+            if "did not return" in r["error"] or "did not finish" in r["error"]:
+                ctx.fail("reload-serial:hang", "ingest workers against configuration reloads: %s" % r["error"], replay)
+            else:
+                ctx.broken("driver", "reload lane driver error: %s" % r["error"], replay)
+            continue
+        for p in r.get("panics") or []:
+            ctx.fail("reload-serial:panic", "a goroutine panicked while the configuration was being reloaded: %s" % p[:300], replay)
+        if r["lineups"] and r["lineup_queued"] > 0 and r["lineup_writer"] > 0:
+            hist["rser/lineup"] = hist.get("rser/lineup", 0) + 1
+        hosts = [p["covert"].rsplit(":", 1)[0] for p in c["probes"]]
+        kinds = "+".join(sorted({conf_kind(x) for x in c["confs"]}))
+        for pi, (pr, ob) in enumerate(zip(c["probes"], r["probes"])):
+            parts = ob["solo_parts"]
+            agree = all(x == parts[0] for x in parts)
+            solo = set(ob["solo"])
+            if not ob["solo_coherent"] or ob["incoherent"]:
+                ctx.fail("reload-serial:incoherent", "valid / announced exactly once / visible to a lookup disagree for an ingested registration "
+                         "(probe %s; %s)" % (pr, ob.get("first_incoherent") or "ingested alone"), replay)
+            seen = set()
+            if ob["accepted"]:
+                seen.add(True)
+            if ob["rejected"]:
+                seen.add(False)
+            cross = c["tag"].startswith("cross-section/")
+            cls = ("forbidden-by-all" if solo == {False} else "allowed-by-all" if solo == {True} else "differs")
+            ctx.count(("rser", c["tag"], pr, c["confs"], sorted(seen)), nontrivial=ob["accepted"] + ob["rejected"] > 0,
+                      kind="rser/" + ("cross-section" if cross else cls if agree or cls == "differs" else "sections-differ"))
+            if cls == "differs" and len(seen) == 2:
+                hist["rser/flip-observed"] = hist.get("rser/flip-observed", 0) + 1
+            extra = seen - solo
+            if extra and len(solo) == 1:
+                n_bad = ob["accepted"] if True in extra else ob["rejected"]
+                what = ("%d of %d ingests of covert %s (phantom %s.., source %s) were %s while the configuration was reloaded between %s "
+                        "although EVERY one of these configurations %s it when it is in force alone (sections [phantom, domain, address] "
+                        "refused per configuration: %s); first: %s" %
+                        (n_bad, ob["accepted"] + ob["rejected"], pr["covert"], pr["phantom"], pr["source"],
+                         "accepted, announced to the detector and visible to connection handlers" if True in extra else "refused",
+                         " / ".join(conf_kind(x) + ":" + json_brief(x) for x in c["confs"]),
+                         "refuses" if True in extra else "accepts", parts,
+                         ob["first_accepted"] if True in extra else ob["first_rejected"]))
+                if agree:
+                    ctx.fail("reload-serial:mixed-view/%s/%s" % ("accepted-forbidden-by-all" if True in extra else "refused-allowed-by-all", kinds),
+                             "no serial order of ingest and reload: " + what, replay)
+                else:
+                    differing = [n for n, col in zip(("phantom", "domain", "address"), zip(*parts)) if len(set(col)) > 1]
+                    sect = "domain+address" if set(differing) == {"domain", "address"} else \
+                        "covert+phantom" if "phantom" in differing else "+".join(differing)
+                    ctx.fail("reload-serial:cross-section/" + sect, "an ingest reads the policy in separate read sections; a reload between two of "
+                             "them: " + what, replay)
+            # model: same solo tables, observed outcomes among those the theorem allows
+            m = "(mkRmsg %s %s %s %s)" % (gnat(pi), g_ip(hosts[pi]), g_ip(pr["phantom"]), gbool(pr["source"] == "detector"))
+            terms.append("(%s, %s, %s, %s, %s, %s)" % (
+                glist([g_pol(x, hosts) for x in c["confs"]]), m,
+                glist(["(%s, %s, %s)" % tuple(gbool(b) for b in x) for x in parts]), glist([gbool(b) for b in ob["solo"]]),
+                gbool(True in seen), gbool(False in seen)))
+            term_case.append((c, r, pi))
+    if res:
+        ctx.sample({"reload_lane": {"case": cases[0], "observed": res[0]}})
+    tot = {"ingests": sum(r.get("ingests", 0) for r in res), "reloads": sum(r.get("reloads", 0) for r in res),
+           "lineups": sum(r.get("lineups", 0) for r in res), "ms": sum(r.get("ms", 0) for r in res)}
+    ctx.cov["reload_lane"] = tot
+    if terms:
+        mm = ctx.coq_mismatches("rser", HEADER_R, terms, "rchk", need_vo=["C09/RunR.vo"])
+        if mm:
+            ctx.cov["mismatches"] += len(mm)
+            c, r, pi = term_case[mm[0]]
+            ctx.broken("correspondence", "reload lane: model (ModelR) and the real policy functions / ingest disagree on %d probe(s); first: case %s "
+                       "probe %s: solo sections %s solo accepted %s" % (len(mm), c["tag"], c["probes"][pi], r["probes"][pi]["solo_parts"],
+                                                                      r["probes"][pi]["solo"]), {"rser_cases": [c], "observed": r})
+
+
+def json_brief(conf):
+    return ",".join("%s=%s" % (k.replace("covert_", ""), v) for k, v in conf.items() if v)
+
+
 # ---------------------------------------------------------------- entry
 def run(ctx):
     split = os.environ.get("VERIF_C09_SPLIT") == "1"   # model of the code before TrackRegIfNotExists (demonstrations only)
@@ -708,7 +907,7 @@ def run(ctx):
     tm = ctx.cov.setdefault("timing_s", {})
     t0 = time.time()
     ctx.coq_props()
-    rc_ex, out_ex = ctx.coq_make(["C09/Examples.vo", "C09/Refuted.vo"])
+    rc_ex, out_ex = ctx.coq_make(["C09/Examples.vo", "C09/Refuted.vo", "C09/ExamplesR.vo", "C09/RefutedR.vo", "C09/RunR.vo"])
     if rc_ex != 0:
         ctx.broken("proof-obligation", "Examples.v / Refuted.v (non-vacuity and necessity witnesses) no longer check: " + out_ex[-500:])
     tm["coq_build"] = round(time.time() - t0, 1)
@@ -716,12 +915,15 @@ def run(ctx):
     if ctx.replay and "distrib" in ctx.replay and "sched_cases" not in ctx.replay:
         run_distrib(ctx, split)
         return
+    if ctx.replay and "rser_cases" in ctx.replay and "sched_cases" not in ctx.replay:
+        run_rser(ctx)
+        return
     cases = gen_sched_cases(ctx)
     for c in cases:
         c["policies"] = POLICIES
     js = [dict(c, regs=[reg_json(r) for r in c["regs"]]) for c in cases]
     race_off = os.environ.get("VERIF_C09_RACE") == "0"
-    ex = ThreadPoolExecutor(max_workers=3)
+    ex = ThreadPoolExecutor(max_workers=4)
     def lane(name, fn, *a):
         """a lane never takes the check down: its exception is reported as a broken driver, the other lanes keep their verdicts"""
         def run_lane():
@@ -735,10 +937,12 @@ def run(ctx):
 
     f_sched = ex.submit(lane("controlled schedules", ctx.go_inpkg, ".", PKG, DRIVER, "^TestVerifC09$", js, False, 1200))
     f_dist = ex.submit(lane("distributor / lock-trace / start-up", run_distrib, ctx, split))
+    f_rser = ex.submit(lane("reload as an operation of the history", run_rser, ctx))
     # free-running stress under the race detector, overlapped with the rest of the check
     f_race = None if race_off else ex.submit(lane("stress under -race", run_stress, ctx, True))
     rc, out, res = f_sched.result() or (1, "lane failed", None)
     f_dist.result()
+    f_rser.result()
     tm["go_sched_and_distrib"] = round(time.time() - t0, 1)
     t0 = time.time()
     if res is None or len(res) != len(cases):
@@ -781,7 +985,9 @@ def run(ctx):
                        "point/after-track", "point/after-covert", "point/probe", "point/end", "point/collected",
                        "point/before-remove", "point/found", "point/disabled", "sweep/removed", "ingest/duplicate",
                        "handler/activated", "distrib/idle", "distrib/busy", "distrib/overload",
-                       "locktrace/track", "locktrace/dup", "locktrace/activate", "distrib/unbuffered"])
+                       "locktrace/track", "locktrace/dup", "locktrace/activate", "distrib/unbuffered",
+                       "rser/forbidden-by-all", "rser/allowed-by-all", "rser/differs", "rser/flip-observed", "rser/lineup",
+                       "rser/cross-section"])
     tm["oracle_and_encode"] = round(time.time() - t0, 1)
     t0 = time.time()
     mm = ctx.coq_mismatches("sched", HEADER, terms, "chkb", shard=min(500, max(60, len(terms) // 16 + 1)), need_vo=["C09/Run.vo"])
